@@ -3,7 +3,7 @@ from ..market_machine import market_cases
 from ._market_common import frac, fuzz_part, make_check
 
 ID = "C08"
-RULE = ("Histories as for C01 with running on/off toggles and expiries. After every op the real market's best bid/ask, "
+RULE = ("(one history in four sets the market up with the optional keys Market.setup documents -- tradeVolume, outstandingShares, fundamentalPrice -- which leave book and statistics alone) Histories as for C01 with running on/off toggles and expiries. After every op the real market's best bid/ask, "
         "both depth dicts, market/mid/last-executed price series, executed volume, turnover, order counts and VWAP are "
         "compared with the reference price state machine driven by the ACTUAL fills. Non-trivial = history with a "
         "running->off->running switch, a trade and an expiry that changes a best quote.")
